@@ -138,14 +138,16 @@ def run(ctx, rep):
 def _list_rules(ctx, rep, enf):
     """(iii) list-of-lists: OR of ANDs; empty inner lists skipped; bare strings; all-empty denies; [] allows."""
     leaves = ['role:r0', 'role:r1', 'role:r2']
-    inner_opts = [[]] + [list(c) for n in (1, 2, 3) for c in itertools.permutations(leaves, n)] + leaves + ['']
+    pool = leaves + ['@', '!']
+    inner_opts = ([[]] + [list(c) for n in (1, 2, 3) for c in itertools.permutations(leaves, n)] + leaves + [''] +
+                  [list(c) for n in (2, 3) for c in itertools.permutations(pool, n) if '@' in c or '!' in c] + ['@', '!', ['@'], ['!']])
     shapes = [[]]
     for n in (1, 2, 3):
         for combo in itertools.product(range(len(inner_opts)), repeat=n):
             shapes.append([inner_opts[i] for i in combo])
     if not ctx.thorough:
         ctx.rng.shuffle(shapes)
-        shapes = [[]] + shapes[:600]
+        shapes = [[]] + shapes[:1500]
     rep.rules.append('%d list-of-lists shapes (<=3 outer x <=3 inner entries over 3 leaves, empties, bare strings) '
                      'under all 8 role subsets' % len(shapes))
     assigns = list(gen.subsets(['r0', 'r1', 'r2']))
@@ -168,7 +170,7 @@ def _list_rules(ctx, rep, enf):
                     if not inner:
                         continue
                     items = [inner] if isinstance(inner, str) else inner
-                    if all(it.split(':', 1)[1] in a for it in items):
+                    if all((it == '@') or (it != '!' and ':' in it and it.split(':', 1)[1] in a) for it in items):
                         want = True
             if got != mo:
                 rep.disagree('eval-list', {'rule': sh, 'roles': a}, mo, got)
